@@ -360,3 +360,14 @@ func (h *SelHolder) FiltersStoredSelectionInPlace(n int) []int {
 
 // StripsUnicodeSpace violates R5.13.
 func StripsUnicodeSpace(data []byte) []byte { return bytes.Join(bytes.Fields(data), nil) }
+
+type levelAttr struct {
+	Lvl int `xml:"lvl,attr"`
+}
+
+// IndentsByParsedLevel violates R2.16: the level is whatever the file says.
+func IndentsByParsedLevel(a *levelAttr, sb *strings.Builder) {
+	for j := 0; j < a.Lvl; j++ {
+		sb.WriteString("  ")
+	}
+}
